@@ -277,10 +277,11 @@ class Repo:
         # front-end normalisation (behaviour-preserving): helper inlining, guard clauses, comparison / branch orientation
         self.n_inlined = 0
         if os.environ.get("AGILINT_INLINE", "1") != "0":
-            from .inline import canonicalise_conditional_assignments, canonicalise_filtered_loops, canonicalise_guards, canonicalise_negations, canonicalise_quantifiers, count_defs, inline_helpers
+            from .inline import canonicalise_parallel_assignments, canonicalise_conditional_assignments, canonicalise_filtered_loops, canonicalise_guards, canonicalise_negations, canonicalise_quantifiers, count_defs, inline_helpers
             counts = count_defs([t for _, _, _, _, t, _ in parsed])
             for _, _, _, _, tree, _ in parsed:
                 self.n_inlined += inline_helpers(tree, counts)
+                canonicalise_parallel_assignments(tree)
                 canonicalise_guards(tree)
                 canonicalise_quantifiers(tree)
                 canonicalise_filtered_loops(tree)
